@@ -122,6 +122,26 @@ func dateNum(r *rand.Rand, long bool) string {
 	return fmt.Sprintf("%04d%02d%02d", y, mo, d) + hms
 }
 
+// LogNum draws a number whose BIT LENGTH is uniform in 1..maxBits (so every power-of-two band, e.g. [2^21, 2^22), is
+// as likely as any other), either random inside the band or on its edges. Packed sort keys, bit-sliced fields and
+// fixed-width slots fail in one band only.
+func LogNum(r *rand.Rand, maxBits int) string {
+	bits := 1 + r.IntN(maxBits)
+	lo := uint64(1) << (bits - 1)
+	switch r.IntN(6) {
+	case 0:
+		return strconv.FormatUint(lo, 10)
+	case 1:
+		return strconv.FormatUint(lo-1, 10)
+	case 2:
+		return strconv.FormatUint(lo<<1-1, 10)
+	}
+	if bits == 1 {
+		return "1"
+	}
+	return strconv.FormatUint(lo+r.Uint64N(lo), 10)
+}
+
 // Num draws a decimal number string.
 func Num(r *rand.Rand, o NumOpts) string {
 	switch r.IntN(40) {
@@ -129,6 +149,11 @@ func Num(r *rand.Rand, o NumOpts) string {
 		return CarryNum(r)
 	case 1:
 		return DateNum(r, o.Big)
+	case 2, 3, 4:
+		if o.Big {
+			return LogNum(r, 64)
+		}
+		return LogNum(r, 31)
 	}
 	k := r.IntN(100)
 	if k >= 96 && len(dictNums) > 0 { // a number literal of the source (or a neighbour / power derived from it)
